@@ -1074,6 +1074,9 @@ func (h *handler) handleProduce(ctx context.Context, header *protocol.RequestHea
 				p := kmsg.NewProduceResponseTopicPartition()
 				p.Partition = part.Partition
 				p.ErrorCode = h.backpressureErrorCode()
+				if errors.Is(err, storage.ErrInvalidRecordBatch) {
+					p.ErrorCode = protocol.CORRUPT_MESSAGE
+				}
 				partitionResponses = append(partitionResponses, p)
 				if h.traceKafka {
 					h.logger.Debug("produce append failed", "topic", topic.Topic, "partition", part.Partition, "error", err)
